@@ -19,6 +19,7 @@
 #include "tmsg.h"
 
 IMG_SERVER(s)
+#include "downdec.h"
 
 static int thorough;
 static const char *DOM = "t.example.com";
@@ -154,17 +155,21 @@ static void health_probe(void)
 
 /* session C: fetch whatever the server has queued for it (every fragment acknowledged), like a client would */
 static int c_slot, c_cmc, c_dnseq, c_dnfrag;
+static int c_qtype = 10;       /* record type of session C's fetching pings: every type's answer writer gets the huge fragments */
+static const int C_QT[7] = { 10, 16, 15, 33, 5, 1, 65399 };
+static const char *C_QTN[7] = { "NULL", "TXT", "MX", "SRV", "CNAME", "A", "PRIVATE" };
 static void drain_c(int maxq)
 {
-	static rd_msg m; const uint8_t *pl; uint8_t pkt[800];
+	static rd_msg m; static uint8_t pl[70000]; uint8_t pkt[800]; char err[128];
 	for (int i = 0; i < maxq && vw_alive(0); i++) {
 		adv_clear();
-		int n = tm_ping(pkt, 0x7800 + i, 10, c_slot, c_dnseq, c_dnfrag, c_cmc++, DOM);
+		int n = tm_ping(pkt, 0x7800 + i, c_qtype, c_slot, c_dnseq, c_dnfrag, c_cmc++, DOM);
 		adv_send(&C_ADDR, ALEN, pkt, n);
 		after_delivery();
 		int got = 0;
 		for (int k = 0; k < adv_nout; k++) if (adv_outs[k].kind == 0 && vw_addr_eq(&adv_outs[k].dst, &C_ADDR)) {
-			int l = tm_null_payload(adv_outs[k].data, adv_outs[k].len, &pl, &m);
+			if (rd_parse(adv_outs[k].data, adv_outs[k].len, &m, err)) continue;
+			int l = decode_downstream(&m, adv_outs[k].data, pl, sizeof pl);
 			if (l > 2 && (pl[0] & 0x80)) { c_dnseq = (pl[1] >> 5) & 7; c_dnfrag = (pl[1] >> 1) & 15; got = 1; }
 		}
 		if (!got && i > 1) break;
@@ -437,7 +442,8 @@ static void fam_raw(void)
 		static unsigned char ip[70000], z[70100];
 		static const int SZ[] = { 100, 1500, 4000, 4080, 4090, 4096, 4200, 6000, 9000 };
 		uint32_t cip = 0x0A000002 + c_slot;
-		for (unsigned k = 0; k < sizeof SZ / sizeof SZ[0]; k++) for (int dst = 0; dst < 3; dst++) {
+		for (unsigned k = 0; k < sizeof SZ / sizeof SZ[0]; k++) for (int dst = 0; dst < 3; dst++) for (int qt = 0; qt < (dst == 0 ? 7 : 1); qt++) {
+			c_qtype = C_QT[qt];
 			unsigned x = 2463534242u + SZ[k];
 			for (int i = 0; i < SZ[k]; i++) { x ^= x << 13; x ^= x >> 17; x ^= x << 5; ip[i] = x; }
 			ip[0] = ip[1] = 0; ip[2] = 8; ip[3] = 0; ip[4] = 0x45;
@@ -446,9 +452,10 @@ static void fam_raw(void)
 			int zl = tm_compress(ip, SZ[k], z, sizeof z);
 			int n = tm_raw(buf, 0x20, 1, z, zl);
 			deliver(&A_ADDR, buf, n, "raw data of A: %d-byte incompressible packet (%d compressed) for %s", SZ[k], zl, dst == 0 ? "session C (fragment size 65535)" : dst == 1 ? "session B" : "the server's tun");
-			if (dst == 0) drain_c(40);
+			if (dst == 0) { size_t cl = strlen(cur_desc); snprintf(cur_desc + cl, sizeof cur_desc - cl, ", fetched with %s pings", C_QTN[qt]); drain_c(40); }
 			tick();
 		}
+		c_qtype = 10;
 	}
 	/* raw data with valid / inflating payloads for every user nibble */
 	static unsigned char big[66000]; memset(big, 0, sizeof big); big[2] = 8; big[4] = 0x45;
@@ -462,7 +469,8 @@ static void fam_tun_big(void)
 	static unsigned char f[70000];
 	static const int SZ[] = { 1500, 4000, 4090, 4092, 4094, 4096, 4098, 4100, 4200, 5000, 8190, 8200, 20000, 65535 };
 	uint32_t cip = 0x0A000002 + c_slot;
-	for (unsigned k = 0; k < sizeof SZ / sizeof SZ[0]; k++) for (int dst = 0; dst < 2; dst++) {
+	for (unsigned k = 0; k < sizeof SZ / sizeof SZ[0]; k++) for (int dst = 0; dst < 2; dst++) for (int qt = 0; qt < (dst == 0 ? 7 : 1); qt++) {
+		c_qtype = C_QT[qt];
 		unsigned x = 88172645u + SZ[k];
 		for (int i = 0; i < SZ[k]; i++) { x ^= x << 13; x ^= x >> 17; x ^= x << 5; f[i] = x; }
 		f[0] = f[1] = 0; f[2] = 8; f[3] = 0; f[4] = 0x45;
@@ -470,10 +478,11 @@ static void fam_tun_big(void)
 		f[20] = d >> 24; f[21] = d >> 16; f[22] = d >> 8; f[23] = d;
 		snprintf(cur_desc, sizeof cur_desc, "incompressible tun frame of %d bytes for session %s", SZ[k], dst ? "B (fragment size 100)" : "C (fragment size 65535)");
 		deliver_tun(f, SZ[k], "%s", cur_desc);
-		char keep[200]; snprintf(keep, sizeof keep, "%s, then fetched by its session", cur_desc);
+		char keep[200]; snprintf(keep, sizeof keep, "%s, then fetched by its session with %s pings", cur_desc, C_QTN[qt]);
 		if (!dst) { snprintf(cur_desc, sizeof cur_desc, "%s", keep); drain_c(40); }
 		tick();
 	}
+	c_qtype = 10;
 }
 
 static void fam_tun(void)
